@@ -1255,6 +1255,10 @@ class Structure(UniqueMixin, metaclass=StructMeta):
         return str(self).__hash__()
 
     def __delitem__(self, key):
+        if getattr(self, IS_IMMUTABLE, False):
+            raise ValueError(f"{self.__class__.__name__}: Structure is immutable")
+        if getattr(self.get_all_fields_by_name().get(key), IS_IMMUTABLE, False):
+            raise ValueError(f"{key}: Field is immutable")
         if isinstance(getattr(self, REQUIRED_FIELDS), list) and key in getattr(
                 self, REQUIRED_FIELDS
         ):
